@@ -116,7 +116,7 @@ def run(tier):
                 e = cfg.expr_operand(f, s["rv"]["ops"][0], 8)
                 rep.check(e == ("param", 1), "text-identity", "%s:String#%d" % (short(f.key), n),
                           "a Scalar::String is built from something other than the untouched input text", site=site(f, s["sp"]), detail=cfg.expr_str(e))
-    rep.floor("Scalar::String constructions in the resolver", n, 4)
+    rep.floor("Scalar::String constructions in the resolver", n, 2)
     # non-plain styles return String(v) before any parser call: the style test dominates every parser call
     style_sw = None
     for bi, b in enumerate(pfm.blocks):
@@ -198,7 +198,7 @@ def run(tier):
                   "the resolver gives the literal %r the meaning %s; the core schema says %s" % (lit, vals, exp), detail={"built": vals, "core_schema": exp})
     for req in ("~", "null", "true", "false", ".inf", "-.inf", ".nan"):
         rep.check(req in found, "literal-present", repr(req), "the resolver no longer recognises the core-schema literal %r" % req)
-    rep.floor("literals compared by the resolver", len(found), 15)
+    rep.floor("literals compared by the resolver", len(found), 12)
 
     # (c) guarded delegation
     n = 0
@@ -232,7 +232,7 @@ def run(tier):
             rep.check(guarded, "guarded-delegation", "%s:%s%s" % (short(f.key), kind, (" " + pref) if pref else ""),
                       "%s: without a lexical guard texts outside the core schema are typed as numbers" % what, site=site(f, t["sp"]),
                       detail={"argument": cfg.expr_str(arg)})
-    rep.floor("permissive std parser calls needing a guard", n, 4)
+    rep.floor("permissive std parser calls needing a guard", n, 2)
     return rep
 
 
